@@ -140,15 +140,15 @@ theorem every_writable_relation_implemented : ∀ r ∈ Capella.Gen.Acc.table, r
 
 /-- A rejected insertion changes nothing — `NewObject`s and objects of another model, for every relation kind, every
 index and every list in hand: no tree, no index, no detached element differs afterwards. -/
-theorem rejected_insert_changes_nothing (row : ARow) (owner : Nat) (elems : List Nat) (i : Int) (s : State) :
-    (∀ h, Same s (listInsert row owner elems i (.newObject h) s).st) ∧ Same s (listInsert row owner elems i .foreign s).st :=
-  ⟨fun h => (frame_listInsert_newObject row owner elems i h).fr s, (frame_listInsert_foreign row owner elems i).fr s⟩
+theorem rejected_insert_changes_nothing (t : Tables) (row : ARow) (owner : Nat) (elems : List Nat) (i : Int) (s : State) :
+    (∀ h, Same s (listInsert t row owner elems i (.newObject h) s).st) ∧ Same s (listInsert t row owner elems i .foreign s).st :=
+  ⟨fun h => (frame_listInsert_newObject t row owner elems i h).fr s, (frame_listInsert_foreign t row owner elems i).fr s⟩
 
 /-- A fixed-length relation that is full refuses every insertion with TypeError and changes nothing. -/
-theorem full_fixed_length_list_refuses_insert (row : ARow) (owner : Nat) (elems : List Nat) (i : Int) (v : Val) (s : State)
+theorem full_fixed_length_list_refuses_insert (t : Tables) (row : ARow) (owner : Nat) (elems : List Nat) (i : Int) (v : Val) (s : State)
     (hf : row.fixed ≠ 0) (hl : elems.length ≥ row.fixed) :
-    (listInsert row owner elems i v s).val = .error .typeError ∧ Same s (listInsert row owner elems i v s).st :=
-  listInsert_fixed row owner elems i v s hf hl
+    (listInsert t row owner elems i v s).val = .error .typeError ∧ Same s (listInsert t row owner elems i v s).st :=
+  listInsert_fixed t row owner elems i v s hf hl
 
 /-- The member sequence `AttrProxyAccessor.insert` writes is Python's `list.insert` applied to the list in hand, for
 every integer index (so the list in hand, which mirrors the edit with `list.insert`, and the stored attribute agree). -/
